@@ -18,13 +18,16 @@ IntValsOf(kd) ==
   \cup (IF kd \in Signed THEN {0 - 1, 0 - 3, 0 - 128} ELSE {})
   \cup (IF kd \in Unsigned THEN {255} ELSE {})
   \cup (IF Bits(kd) >= 16 THEN {255, 256, 32767} \cup (IF kd \in Signed THEN {0 - 32768} ELSE {65535}) ELSE {})
-  \cup (IF Bits(kd) >= 32 THEN {65536, 999999} \cup (IF kd \in Signed THEN {0 - 999999} ELSE {}) ELSE {})
+  \cup (IF Bits(kd) >= 32 THEN {65536, 999999, 1000000, 1234567, 16777216} \cup (IF kd \in Signed THEN {0 - 999999, 0 - 1000000} ELSE {}) ELSE {})
 FloatQs == {0, 64, 0 - 64, 192, 96, 16, 0 - 160, 63999936, 6400, 1}
 
 NumD(kd, q) == [id |-> "num:" \o kd \o ":" \o ToString(q), cls |-> "num", q |-> q]
 Nums == UNION {{NumD(kd, n * Scale) : n \in IntValsOf(kd)} : kd \in Signed \cup Unsigned}
         \cup {NumD(kd, q) : kd \in Floats, q \in FloatQs}
         \cup {NumD(kd, n * Scale) : kd \in Floats, n \in {3, 100, 127, 0 - 3}}
+        (* from a million up: the same number reads the same whether an integer or a float carries it *)
+        \cup {NumD(kd, n * Scale) : kd \in Floats, n \in {1000000, 1234567, 16777216, 0 - 1000000}}
+        \cup {NumD("float64", 1234567 * Scale + 32)}
 Bigs == { [id |-> "big:int64:max", cls |-> "big", s |-> "9223372036854775807", pos |-> TRUE],
           [id |-> "big:int64:min", cls |-> "big", s |-> "-9223372036854775808", pos |-> FALSE],
           [id |-> "big:uint64:max", cls |-> "big", s |-> "18446744073709551615", pos |-> TRUE],
